@@ -3,6 +3,7 @@ import XcpProofs.FsFrame
 import XcpProofs.NoClobberTree
 import XcpProofs.MultiNoClobber
 import XcpProofs.GiConc
+import XcpProofs.MultiCollision
 /-! # C08 — `--no-clobber` never alters anything that already exists in the destination
 
 Model slice: the walker's existence probe (`lstat` after the `fix:` commit) and `execOps`.
@@ -169,5 +170,47 @@ theorem one_source_with_gitignore_any_interleaving_preserves (fs : Fs) (c : Cfg)
     (∀ op ∈ st.queue, ∀ t, opTarget op = some t → st.fs.lexists t = false) ∧
     (∀ op r, st.todo = op :: r → ∀ t, opTarget op = some t → st.fs.lexists t = false) :=
   gitignore_noclobber_any_interleaving fs c hd hn ps src tb srcNode fuel hwf hroot hsrc hsn hcop htb hne habs hpar hun1 hun2 hlen ls st hrun
+
+/-- SEVERAL sources, some of whose targets `DEST/basename` ALREADY EXIST (any kind: file, directory, special, live or
+dangling link) — the case the property's second clause is about.  In EVERY reachable state of the concurrent model (the
+walker stopping at the first collision while workers still complete operations of earlier sources) every initial entry is
+kept and whatever completes or is created next has a target that does not exist at that moment … -/
+theorem several_sources_with_collisions_preserve (fs : Fs) (c : Cfg) (dest : RPath) (items : List CopySrc) (fuel : Nat)
+    (hd : c.dereference = false) (hn : c.noClobber = true)
+    (hwf : FsEq fs fs)
+    (hdest : PlainTarget fs dest) (hdd : ∃ es, fs.root.getAt dest.names = some (.dir es))
+    (hfuel : fuel < walkFuel)
+    (hsrc : ∀ e ∈ items, PlainTarget fs e.path ∧ e.path.fileName = some e.base ∧
+      fs.root.getAt e.path.names = some e.node ∧ e.node.Copyable fuel ∧ e.path.names.length + walkFuel < 256)
+    (hnd : (items.map (·.base)).Nodup)
+    (hun : ∀ e ∈ items, ∀ e' ∈ items,
+      ¬ e.path.names <+: dest.names ++ [e'.base] ∧ ¬ dest.names ++ [e'.base] <+: e.path.names)
+    (hlen : dest.names.length + 1 + walkFuel < 256)
+    (ls : List L0.Label) (s : L0.St)
+    (hrun : L0.run c (L0.init fs (multiOps fs c dest items)) ls = some s) :
+    Preserved fs.root s.fs.root ∧
+    (∀ op ∈ s.queue, ∀ t, opTarget op = some t → s.fs.lexists t = false) ∧
+    (∀ op r, s.todo = op :: r → ∀ t, opTarget op = some t → s.fs.lexists t = false) :=
+  multi_collision_preserves fs c dest items fuel hd hn hwf hdest hdd hfuel hsrc hnd hun hlen ls s hrun
+
+/-- … and THE RUN ENDS NON-ZERO: with at least one existing target, no run of the concurrent model completes without having
+failed, and the sequential run exits non-zero (the model evaluates each source's probe in the initial state; earlier sources
+write only below their own distinct targets, so this is the state the walker finds) -/
+theorem a_collision_among_several_sources_exits_nonzero (fs : Fs) (c : Cfg) (dest : RPath) (items : List CopySrc) (fuel : Nat)
+    (hd : c.dereference = false) (hn : c.noClobber = true)
+    (hwf : FsEq fs fs)
+    (hdest : PlainTarget fs dest) (hdd : ∃ es, fs.root.getAt dest.names = some (.dir es))
+    (hfuel : fuel < walkFuel)
+    (hsrc : ∀ e ∈ items, PlainTarget fs e.path ∧ e.path.fileName = some e.base ∧
+      fs.root.getAt e.path.names = some e.node ∧ e.node.Copyable fuel ∧ e.path.names.length + walkFuel < 256)
+    (hnd : (items.map (·.base)).Nodup)
+    (hun : ∀ e ∈ items, ∀ e' ∈ items,
+      ¬ e.path.names <+: dest.names ++ [e'.base] ∧ ¬ dest.names ++ [e'.base] <+: e.path.names)
+    (hcol : ∃ e ∈ items, fs.root.getAt (dest.names ++ [e.base]) ≠ none)
+    (hlen : dest.names.length + 1 + walkFuel < 256) :
+    (∀ (ls : List L0.Label) (s : L0.St), L0.run c (L0.init fs (multiOps fs c dest items)) ls = some s →
+      L0.final s = true → s.failed = true) ∧
+    (execOps fs c (multiOps fs c dest items)).exit = .err :=
+  multi_collision_fails fs c dest items fuel hd hn hwf hdest hdd hfuel hsrc hnd hun hcol hlen
 
 end Xcp.C08
